@@ -44,6 +44,7 @@ def run(ctx):
         if cfg == "core-default":
             generators(ctx, f, cfg)
             premises(ctx, f, cfg)
+            underflow(ctx, f, cfg)
             # a statistics object is handed to a checker that did not fill it only if the reuse predicate ignores what selects the
             # checker: the hotspot reject checker then retries forever on a value the throttling checker registered (hang)
             from . import rules_C11
@@ -166,6 +167,57 @@ def premises(ctx, f, cfg):
         ctx.instance("C12.premise/breaker-buckets", g.path, {"paths": n, "configured_count_returned_unchecked": bad[:2]}, "the configured count is returned only when it is non-zero and divides the interval, otherwise 1", ok, cfg)
         if not ok:
             ctx.violation("C12.premise", "C12.premise|breaker-buckets", "the breaker's bucket count can be a value LeapArray::new refuses (the breaker constructors unwrap it): %s" % bad[:1], g.loc(), config=cfg)
+
+
+# cells whose decrement is paired with an earlier increment on every history, by a rule that runs elsewhere (one line of reason each)
+PAIRED_CELLS = {
+    "ResourceNode.concurrency": "raised only by on_entry_pass and lowered only by on_completed of the same entry (rules C04.who-may / C04.counter, C13.completion); the node outlives its entries (C14.one-node/retained)",
+}
+
+
+def underflow(ctx, f, cfg):
+    """An unsigned counter must not wrap below zero: every fetch_sub on an unsigned atomic is (a) the undo of a fetch_add of the same
+    cell that dominates it in the same function, (b) followed by a test of the value it returns (wrap detection), or (c) on a cell whose
+    increments and decrements are paired by construction (table above).  A cell taken from an evictable cache (hotspot per-value
+    counters) satisfies none of these: it can be re-created between an entry's increment and its decrement; the decrement has to be
+    saturating (fetch_update / checked_sub), otherwise the next checked addition on it panics (overflow checks) or the cap is void."""
+    n = 0
+    for p, b in sorted(f.bodies.items()):
+        sl = None
+        for bb, t in b.calls():
+            if atomic_op(t) != "fetch_sub":
+                continue
+            ty = (t.get("arg_tys") or [""])[0] + " " + callee_def(t)
+            if not any(u in ty for u in ("AtomicU64", "AtomicU32", "AtomicUsize", "Atomic<u64>", "Atomic<u32>", "Atomic<usize>", "Atomic::<u64>", "Atomic::<u32>", "Atomic::<usize>")):
+                continue
+            n += 1
+            sl = sl or Slicer(f, b)
+            at = sl.of_operand(t["args"][0])
+            flds = {x for x in at if x.startswith("field:")}
+            reason = None
+            for cell, why in PAIRED_CELLS.items():
+                if any_atom(at, "field:" + cell):
+                    reason = "paired: " + why
+            if reason is None:
+                for bb2, t2 in b.calls():
+                    if callee_def(t2).endswith("::fetch_add") and bb2 != bb and b.dominates(bb2, bb) and ({x for x in sl.of_operand(t2["args"][0]) if x.startswith("field:")} == flds) and flds:
+                        reason = "undo of the fetch_add on the same cell earlier in this function"
+            if reason is None:
+                for bi, blk in enumerate(b.blocks):
+                    tt = blk["term"]
+                    if tt and tt["k"] == "switch" and bb in b.dominators().get(bi, ()) and any(x.startswith("call:") and x.endswith("::fetch_sub") for x in sl.of_operand(tt["op"])):
+                        reason = "the value returned by fetch_sub is tested afterwards (wrap detection)"
+            ctx.instance("C12.underflow", "%s@%s" % (p, sorted(short_field(x) for x in flds)), reason or "plain fetch_sub on a cell that is not paired", "undo / wrap-tested / paired cell", reason is not None, cfg)
+            if reason is None:
+                src = sorted(x[5:].rsplit("::", 2)[-2] + "::" + x.rsplit("::", 1)[-1] for x in at if x.startswith("call:") and x.rsplit("::", 1)[-1] in ("get", "add_if_absent", "get_mut"))
+                ctx.violation("C12.underflow", "C12.underflow|%s" % p.replace("core::", "", 1),
+                              "an unsigned counter obtained through %s is decremented with a plain fetch_sub: if the cell was evicted and re-created since the matching increment it wraps to MAX, and the next `count + 1` on it panics (overflow checks) or voids the cap" % (src or "a lookup"),
+                              b.loc(bb), config=cfg)
+    ctx.floor("C12.underflow", "fetch_sub sites on unsigned atomics", n, 2)
+
+
+def short_field(x):
+    return x.split(":", 1)[1].rsplit("::", 1)[-1]
 
 
 def generators(ctx, f, cfg):
